@@ -228,6 +228,42 @@ def hostile(rng, files, trig=0.15):
     return corpus_slice(rng, files)
 
 
+
+# ---------------------------------------------------------------------------
+# deep nesting: valid (and slightly broken) programs whose trees are 20..330 levels deep, the range in which the
+# tree walkers of parso (visit, dump, pickle, get_code) still work below CPython's recursion limit
+
+_DEEP_WRAP = [('(', ')'), ('[', ']'), ('f(', ')'), ('{1: ', '}'), ('[0, ', ']'), ('(a, ', ')'), ('not ', ''), ('- ', ''), ('lambda: ', ''),
+              ('x if y else ', ''), ('a[', ']'), ('g(k=', ')'), ('await ', ''), ('*', ''), ('{', '}')]
+_DEEP_CORE = ['x', '1', 'inner + 1', "'s'", 'a.b', 'f"{x}"', 'yield', 'x := 1', '', 'a b', '(', 'lambda: 0', 'x for x in y']
+_DEEP_BLOCK = ['if x:\n', 'for i in j:\n', 'while x:\n', 'def f():\n', 'class A:\n', 'try:\n', 'with a:\n', 'async def g():\n', 'else:\n']
+
+
+def deep(rng, max_levels=330):
+    """an expression nested `levels` times (one or two bracket kinds), optionally inside nested blocks"""
+    levels = rng.choice([rng.randint(20, 120), rng.randint(120, 250), rng.randint(250, max_levels)])
+    kinds = [rng.choice(_DEEP_WRAP) for _ in range(rng.choice([1, 1, 2, 3]))]
+    nblocks = rng.choice([0, 0, 1, 5, 20, 60])
+    if nblocks:
+        levels = max(5, levels - 2 * nblocks)
+    o, c = [], []
+    for k in range(levels):
+        a, b = kinds[k % len(kinds)] if rng.random() < .97 else rng.choice(_DEEP_WRAP)
+        o.append(a)
+        c.append(b)
+    expr = ''.join(o) + rng.choice(_DEEP_CORE) + ''.join(reversed(c))
+    if rng.random() < .08:
+        k = rng.randrange(len(expr))
+        expr = expr[:k] + expr[k + 1:]          # one character missing: deep recovery
+    out = []
+    for k in range(nblocks):
+        out.append(' ' * k + rng.choice(_DEEP_BLOCK))
+    stmt = rng.choice(['', 'x = ', 'return ', 'y += ', 'assert ', 'del ', 'print(x); z = '])
+    out.append(' ' * nblocks + stmt + expr + rng.choice(['\n', '\n', '', '  # c\n']))
+    if rng.random() < .3:
+        out.append('tail = 1\n')
+    return ''.join(out)
+
 # ---------------------------------------------------------------------------
 # histories (C04, C20)
 
